@@ -154,10 +154,12 @@ def shape(line):
 
 
 def doc_shape(text):
+    """bucketed line shapes (readable) plus a checksum of the exact text (so that two documents never share a signature)"""
+    import zlib
     ls = text.split("\n")
     if ls and ls[-1] == "":
         ls = ls[:-1]
-    return " / ".join(shape(l) for l in ls)
+    return "%s #%08x" % (" / ".join(shape(l) for l in ls[:8]) + (" / ..." if len(ls) > 8 else ""), zlib.crc32(text.encode("utf-8")))
 
 
 def kinds(tree):
